@@ -126,8 +126,8 @@ def build_pdb(ctx, natom=2, variant="default"):
         occ = np.ones(natom, dtype=object if sym else float)
         bf = np.zeros(natom, dtype=object if sym else float)
         for p in probes:
-            occ[p] = ctx.real(f"occ{p}", lo=0, hi=9, default=0.5)
-            bf[p] = ctx.real(f"bf{p}", lo=0, hi=90, default=12.5)
+            occ[p] = ctx.real(f"occ{p}", lo=0, hi=999, default=0.5)
+            bf[p] = ctx.real(f"bf{p}", lo=-99, hi=999, default=12.5)
         attypes = np.array([f"C{i % 90}" for i in range(natom)])
         restypes = np.array(["ALA", "GLY", "HOH"][:1] * natom)
         resnums = np.array([(i % 900) + 1 for i in range(natom)])
@@ -809,6 +809,9 @@ def _value_equal(ctx, a, b, path):
         x, y = a[1], b[1]
         if isinstance(x, Sym) or isinstance(y, Sym):
             out.append((path, ctx.eq(x, y)))
+        elif isinstance(x, str) and isinstance(y, str) and ctx.mode == "sym" and x != y:
+            # strings that carry placeholder tokens of formatted numbers: token-for-token comparison
+            out.append((path, _text_equal(ctx, x, y)))
         else:
             both_nan = isinstance(x, float) and isinstance(y, float) and x != x and y != y      # bit-identical NaN
             out.append((path, both_nan or x == y))
